@@ -199,6 +199,14 @@ class ArrayReductionBaseTrans(Transformation, ABC):
 
         orig_lhs = node.ancestor(Assignment).lhs.copy()
         orig_rhs = node.ancestor(Assignment).rhs.copy()
+        # Position of this intrinsic amongst the intrinsic calls on the
+        # rhs of the original assignment, so that the same call is
+        # replaced in the copy of the rhs (there may be several calls to
+        # the same intrinsic).
+        node_index = [id(call) for call in node.ancestor(
+            Assignment).rhs.walk(IntrinsicCall)].index(id(node))
+        # Is this intrinsic the whole of the rhs?
+        whole_rhs = node.ancestor(Assignment).rhs is node
 
         # Determine whether the assignment is an increment (as we have
         # to use a temporary if so) e.g. x = x + MAXVAL(a) and store a
@@ -371,16 +379,20 @@ class ArrayReductionBaseTrans(Transformation, ABC):
         rhs = self._init_var(lhs)
         assignment = Assignment.create(lhs, rhs)
         outer_loop.parent.children.insert(outer_loop.position, assignment)
-        if not (isinstance(orig_rhs, IntrinsicCall) and
-                orig_rhs.intrinsic is self._INTRINSIC_TYPE):
+        if whole_rhs:
+            if increment:
+                # The reduction was accumulated in a temporary: store
+                # its value in the original lhs.
+                assignment = Assignment.create(orig_lhs.copy(),
+                                               new_lhs.copy())
+                outer_loop.parent.children.insert(
+                    outer_loop.position+1, assignment)
+        else:
             # The intrinsic call is not the only thing on the rhs of
             # the expression, so we need to deal with the additional
             # computation.
             rhs = orig_rhs.copy()
-            for child in rhs.walk(IntrinsicCall):
-                if child.intrinsic is self._INTRINSIC_TYPE:
-                    child.replace_with(new_lhs.copy())
-                    break
+            rhs.walk(IntrinsicCall)[node_index].replace_with(new_lhs.copy())
             assignment = Assignment.create(orig_lhs.copy(), rhs)
             outer_loop.parent.children.insert(
                 outer_loop.position+1, assignment)
